@@ -408,6 +408,9 @@ pub fn run(ctx: &mut Ctx) {
     let mut seeds: Vec<String> = alphabet::SEEDS.iter().map(|s| s.to_string()).collect();
     seeds.extend(DIAG_SEEDS.iter().map(|s| s.to_string()));
     seeds.extend(seeds::canonical_sources());
+    // every construct of the diagnostics catalogue (C07): each label computation meets each multi-byte character
+    seeds.extend(crate::mon::c07::CATALOGUE.iter().map(|e| crate::mon::c07::unmark(e.template).0));
+    seeds.extend(["#pan{1 kg}", "#pan{2 big ones}(n)", "~{5 kg}", "~{5 }", "@a{1 }", "@a{ 1 %}", "@a{=1 kg}", ">> [mode] : x", "@a{}( n )", "#&a{}( n )"].map(String::from));
     seeds.extend(crate::mon::c03_targeted_small());
     // front matter in every position the splitter accepts or refuses: after blank lines, CRLF, closing fence at the end
     for fm in [
@@ -488,6 +491,13 @@ pub fn run(ctx: &mut Ctx) {
         for doc in ["---\ntitle: Pancakes é\nservings: 4\n---\nMix thé @flour and the @milk in a #bowl.\n\nFry ~{5}\n", ">> k: v\nstép @a{1/0}\n", "stép ~é(x)\n"] {
             big.push(format!("{}{doc}", '\u{feff}'));
         }
+        // lines longer than a terminal: a diagnostic on a line of 230-260 bytes whose multi-byte characters sit at every
+        // offset around 240, and on a line of 300 two-byte characters (anything that clips or pads code by bytes)
+        for pad in 228..=246 {
+            big.push(format!("{}éé voilà é and let it rest for ~{{5}} before sérving.\n", "x".repeat(pad)));
+        }
+        big.push(format!("{} ~{{5}} {}\n", "é".repeat(300), "€".repeat(100)));
+        big.push(format!("{}@a{{1/0}}{}\n", "😀".repeat(70), "é".repeat(200)));
         for (bi, doc) in big.iter().enumerate() {
             for (e, c) in cfgs {
                 if ctx.mine(bi as u64) {
